@@ -725,6 +725,8 @@ def run_rest(ctx, exe):
     ctx.assumptions += ["model = coq/Model/BrokerHttp.v (handlers as total functions of read result and IPC outcome; refined: request record, response writer, partial operations, routes, "
                         "/debug /metrics /prometheus /robots.txt, broker state through IPC only); IPC outcome per case observed by a direct IPC call on the versioned twin body",
                         "sequential model: overlapping requests (soak, child process) and the http.Server of main() (broker binary over TCP) are observed, not proved; "
+                        "both run with the distinct-IP journal configured as main() does for -ip-count-log/-ip-count-mask/-ip-count-interval (off by default): the soak's polls come from "
+                        "distinct loopback source addresses and in barrier-released waves with forged peer addresses, the binary gets a burst of 48 polls from distinct addresses; "
                         "ServeMux path cleaning / escapes and the /prometheus text are library code (status and content class only)",
                         "net/http framing, MaxBytesReader and the AMP armor are library code: monitored (complete response, connection reusable, server alive), not modelled"]
     ctx.trusted.append("harness/overlay/broker/zz_verif_http_test.go (raw TCP client, real net/http server with the routes of main())")
